@@ -218,6 +218,10 @@ def run(ctx):
     make_tree(os.path.join(pkg, "static"), TREE)
     make_special(os.path.join(pkg, "static"))
     make_tree(pkg, dict(OUTSIDE, **{"__init__.py": ""}))
+    # a package-relative directory whose name starts with a dot, next to a sibling that has the same name without it
+    make_tree(os.path.join(pkg, ".hstatic"), TREE)
+    make_special(os.path.join(pkg, ".hstatic"))
+    make_tree(os.path.join(pkg, "hstatic"), {"a.txt": "SIBLING-A", "index.html": "SIBLING-INDEX", "secret.txt": "SIBLING-SECRET"})
     sys.path.insert(0, root)
     audit = Audit(root)
     cwd0 = os.getcwd()
@@ -228,6 +232,7 @@ def run(ctx):
             "relative": (served, dict(directory="static")),
             "relative-dot": (served, dict(directory="./static/../static/")),
             "package": (os.path.join(pkg, "static"), dict(directory="static", package="pkgc07")),
+            "package-dotdir": (os.path.join(pkg, ".hstatic"), dict(directory=".hstatic", package="pkgc07")),
         }
         # a custom not-found application configured (handle_404=...): everything else must behave as without it
         def custom404(iface):
